@@ -14,21 +14,21 @@ EXTENDS DataStore, TLCExt
 Traces == JsonDeserialize(IOEnv.TRACE_FILE)
 
 VARIABLES tid, l, bad
-tvars == <<comp, nc, logs, mode, ret, tid, l, bad>>
+tvars == <<comp, nc, logs, mode, ret, fresh, tid, l, bad>>
 
 Ev == Traces[tid][l]
 
 TraceInit ==
     /\ tid = 1 /\ l = 1 /\ bad = {}
     /\ comp = [i \in Ids |-> None] /\ nc = [i \in Ids |-> None]
-    /\ logs = [i \in LogIds |-> FALSE] /\ mode = "w" /\ ret = "init"
+    /\ logs = [i \in LogIds |-> FALSE] /\ mode = "w" /\ ret = "init" /\ fresh = TRUE
 
 Matches(e) ==
     /\ comp' = e.post.comp /\ nc' = e.post.nc /\ logs' = e.post.logs
     /\ mode' = e.post.mode /\ ret' = e.ret
 
 Step(e) ==
-    CASE e.op = "Init"      -> ret' = "ok"       \* a store opened on whatever the path already held
+    CASE e.op = "Init"      -> ret' = "ok" /\ fresh' = TRUE      \* a store opened on whatever the path already held
       [] e.op = "Write"     -> WriteT(e.args[1], e.args[2], e.args[3])
       [] e.op = "WriteNC"   -> WriteNCT(e.args[1], e.args[2], e.args[3])
       [] e.op = "WriteLog"  -> WriteLogT(e.args[1], e.args[2])
@@ -48,12 +48,12 @@ Reject ==
     /\ ~ ENABLED Accept
     /\ bad' = bad \cup {<<tid, l>>}
     /\ tid' = tid + 1 /\ l' = 1
-    /\ UNCHANGED <<comp, nc, logs, mode, ret>>
+    /\ UNCHANGED <<comp, nc, logs, mode, ret, fresh>>
 
 NextTrace ==
     /\ tid <= Len(Traces) /\ l > Len(Traces[tid])
     /\ tid' = tid + 1 /\ l' = 1
-    /\ UNCHANGED <<comp, nc, logs, mode, ret, bad>>
+    /\ UNCHANGED <<comp, nc, logs, mode, ret, fresh, bad>>
 
 TraceNext == Accept \/ Reject \/ NextTrace
 TraceSpec == TraceInit /\ [][TraceNext]_tvars
